@@ -43,6 +43,32 @@ def explicit(tier, seed):
                 i += 1
 
 
+def after_return_cases(tier, seed):
+    """A branch abandoned by an early-completing map/parallel is still inside a step function when the handler returns, and goes on
+    afterwards in the same (warm) process: whatever it does then, no durable call may hand it a result the backend never accepted."""
+    i = 0
+    for kind in ("par", "map"):
+        for cfg in ({"min_ok": 1}, {"preset": "first_successful"}, {"tol_n": 0}):
+            for nxt in ("step", "step-most", "child", "wait", "wfc"):
+                fast = [{"k": "step", "val": "fast"}] if "tol_n" not in cfg else \
+                    [{"k": "step", "script": [{"do": "fail", "cls": "ValueError", "msg": "x"}], "retry": {"kind": "preset", "name": "none"}}]
+                n2 = {"step": {"k": "step", "val": "s2"}, "step-most": {"k": "step", "val": "s2", "sem": "most"}, "child": {"k": "child", "body": [{"k": "step", "val": "in"}]},
+                      "wait": {"k": "wait", "s": 1}, "wfc": {"k": "wfc", "init": 0, "decisions": [("stop",)]}}[nxt]
+                slow = [{"k": "step", "script": [{"do": "ok", "val": "s1", "gate": "surv"}]}, n2, {"k": "step", "val": "s3"}]
+                brs = [{"body": fast}, {"body": slow}]
+                node = {"k": "par", "branches": brs, "cfg": cfg} if kind == "par" else {"k": "map", "items": [0, 1], "per_item": brs, "body": [], "cfg": cfg}
+                yield {"label": "abandoned-branch-continues-after-return", "prog": {"body": [{"k": "try", "body": node, "catch": "*"}, {"k": "step", "val": "end"}]},
+                       "prog_seed": 23800 + i, "pattern": {"p": "plain"}, "max_inv": 4,
+                       "holds": [{"match": {"kind": "gate", "name": "surv"}, "until": {"event": {"kind": "returned"}}, "delay_ms": 5}],
+                       "opts": {"linger_s": 0.4, "idle_s": 1.0, "hang_s": 3.0}}
+                i += 1
+
+
+def explicit_all(tier, seed):
+    yield from explicit(tier, seed)
+    yield from after_return_cases(tier, seed)
+
+
 SPEC = Spec(
     PROP,
     level="exploration",
@@ -50,10 +76,10 @@ SPEC = Spec(
     "crash point of a small-program corpus, random multi-crash, asynchronous SIGKILL, yield injection}; every ret/exc delivered to user code and every PENDING outcome is checked, at the instant the single-threaded parent receives it, against the backend table (terminal record / armed wake source / EXECUTION record). Non-trivial = at least one delivery was checked. "
     "Additional hand-written shapes: parallel steps whose 260-450 KB results cannot share a 750 KB batch (overflow queue) under 0-40 ms "
     "backend latency, 800 KB sequential steps, and a failing checkpoint request (answered at once or left in flight 25 ms while "
-    "further blocking records queue up) at every call position, also under after-sync perturbation (the signalling thread is descheduled right after Event.set / Queue.put / lock release). A class = (program shape hash, interruption pattern, event kind at "
+    "further blocking records queue up) at every call position, also under after-sync perturbation (the signalling thread is descheduled right after Event.set / Queue.put / lock release). A branch abandoned by an early-completing map/parallel, held inside its step function until the handler has returned and then released in the lingering process (warm sandbox), followed by each kind of next operation. A class = (program shape hash, interruption pattern, event kind at "
     "which the crash landed).",
     deciding=lambda r: True,
-    explicit=explicit,
+    explicit=explicit_all,
 )
 cases = SPEC.cases
 run_case = SPEC.run_case
